@@ -711,9 +711,21 @@ pub fn run(ctx: &mut Ctx) {
         for k in 10..41u32 {
             f.anns.push(Facts::ann(Kind::Omim, 600_001, "Disease one", Some(1000 + 2 * k)));
         }
+        for k in 20..24u32 {
+            f.anns.push(Facts::ann(Kind::Orpha, 77, "Orpha one", Some(1000 + 2 * k)));
+        }
         let base = RefOnt::derive(&f);
         let parent = |k: u32| 1000 + 2 * k;
         let scripts: Vec<Vec<Edit>> = vec![
+            // a record that loses entries and gains a different number of them (a delta that decides from the two
+            // list lengths which side to scan is exact on pure additions, pure removals and one-for-one swaps)
+            vec![Edit::RemoveAnnotation(Kind::Gene, 11, parent(22)), Edit::AddAnnotation(Kind::Gene, 11, parent(0)), Edit::AddAnnotation(Kind::Gene, 11, parent(44))],
+            vec![Edit::RemoveAnnotation(Kind::Gene, 11, parent(3)), Edit::RemoveAnnotation(Kind::Gene, 11, parent(42)), Edit::AddAnnotation(Kind::Gene, 11, parent(1))],
+            vec![Edit::RemoveAnnotation(Kind::Omim, 600_001, parent(25)), Edit::AddAnnotation(Kind::Omim, 600_001, parent(2)), Edit::AddAnnotation(Kind::Omim, 600_001, parent(43))],
+            vec![Edit::RemoveAnnotation(Kind::Omim, 600_001, parent(10)), Edit::RemoveAnnotation(Kind::Omim, 600_001, parent(40)), Edit::AddAnnotation(Kind::Omim, 600_001, parent(44))],
+            vec![Edit::RemoveAnnotation(Kind::Orpha, 77, parent(21)), Edit::AddAnnotation(Kind::Orpha, 77, parent(5)), Edit::AddAnnotation(Kind::Orpha, 77, parent(30))],
+            vec![Edit::RemoveAnnotation(Kind::Orpha, 77, parent(20)), Edit::RemoveAnnotation(Kind::Orpha, 77, parent(23)), Edit::AddAnnotation(Kind::Orpha, 77, parent(44))],
+            vec![Edit::RemoveParent(5000, parent(5)), Edit::RemoveParent(5000, parent(39)), Edit::AddParent(5000, parent(2))],
             vec![Edit::RemoveParent(5000, parent(5))],
             vec![Edit::RemoveParent(5000, parent(22))],
             vec![Edit::RemoveParent(5000, parent(39))],
@@ -728,7 +740,7 @@ pub fn run(ctx: &mut Ctx) {
             vec![Edit::RemoveAnnotation(Kind::Omim, 600_001, parent(40)), Edit::AddAnnotation(Kind::Omim, 600_001, parent(9))],
             vec![Edit::RemoveAnnotation(Kind::Omim, 600_001, parent(10)), Edit::RemoveAnnotation(Kind::Omim, 600_001, parent(25)), Edit::RenameRecord(Kind::Omim, 600_001, 3)],
         ];
-        ctx.space("edits/long-lists", &format!("a term with 35 parents, a gene on 40 terms, an OMIM disease on 31 terms: {} edit scripts (first / middle / last entry removed, three at once, entries added below / between / above, combined with a rename)", scripts.len()));
+        ctx.space("edits/long-lists", &format!("a term with 35 parents, a gene on 40 terms, an OMIM disease on 31 terms, an ORPHA disease on 4 terms: {} edit scripts (first / middle / last entry removed, three at once, entries added below / between / above, one removed + two added and two removed + one added per record kind, combined with a rename)", scripts.len()));
         for script in &scripts {
             if !ctx.take() {
                 continue;
